@@ -27,7 +27,7 @@ TABLE = {
                              "Model/DepExec.v", "Proofs/StepSafe.v", "Proofs/DepSafe.v", "Proofs/Fidelity.v"], n=(70, 700)),
     "C07": dict(kinds=["step", "dep", "block", "cstep"], oracle=oracles.c07,
                 cone=SAFE + ["Model/StepExec.v", "Model/LiveSpec.v", "Proofs/StepSafe.v", "Proofs/StepLive.v", "Proofs/StepLiveCor.v",
-                             "Proofs/DictFacts.v", "Proofs/C10Proofs.v",
+                             "Proofs/DictFacts.v", "Proofs/C10Proofs.v", "Base/Dec.v", "Base/PyLib.v",
                              "Model/DepExec.v", "Proofs/DepSafe.v", "Proofs/Fidelity.v", "Proofs/DepCeiling.v"], n=(90, 800)),
     "C11": dict(kinds=["block", "step", "dep", "cblock", "cstep"], oracle=oracles.c11,
                 cone=SAFE + ["Model/StepExec.v", "Proofs/StepSafe.v", "Proofs/ExecOrder.v"], n=(70, 700)),
@@ -90,6 +90,63 @@ def exception_fidelity(res):
     return n, fails
 
 
+def ctor_limits(res):
+    """C07: the limits the dispatcher thread is started with are the constructor's own arguments, whatever the
+    executor_kwargs dictionary held before (an entry left by an earlier executor built from the same user dictionary).
+    The real InteractiveStepExecutor.__init__ (thread creation replaced by a recorder) vs the regenerated step_ctor."""
+    from unittest import mock
+    import importlib
+    from core import Obj, pyval, show
+    sh = importlib.import_module("executorlib.interactive.shared")
+    rng = res.rng
+    fails, exprs, want, inputs = [], [], [], []
+    for _ in range(60 if res.tier == "quick" else 600):
+        mc = rng.choice([None, 1, 2, 3])
+        mw = rng.choice([None, 1, 2])
+        ek = {}
+        if rng.random() < 0.5:
+            ek["max_cores"] = rng.choice([None, 1, 3, 5])        # stale entry
+        if rng.random() < 0.3:
+            ek["max_workers"] = rng.choice([None, 2, 4])
+        if rng.random() < 0.5:
+            ek["cores"] = rng.choice([1, 2])
+        given = dict(ek)
+        rec = {}
+
+        class Rec:
+            def __init__(self, target=None, kwargs=None):
+                rec["kwargs"] = kwargs
+
+            def start(self):
+                pass
+        with mock.patch.object(sh, "RaisingThread", Rec):
+            ex = sh.InteractiveStepExecutor(max_cores=mc, max_workers=mw, executor_kwargs=ek, spawner="SP")
+        ex._process = None
+        ex._future_queue = None
+        got = {k: (Obj("queue", 1) if k == "future_queue" else v) for k, v in rec["kwargs"].items()}
+        if got.get("max_cores") != mc or got.get("max_workers") != mw:
+            fails.append("InteractiveStepExecutor(max_cores=%r, max_workers=%r, executor_kwargs=%r): the dispatcher is started with "
+                         "max_cores=%r, max_workers=%r" % (mc, mw, given, got.get("max_cores"), got.get("max_workers")))
+        want.append("Ok " + show(got))
+        inputs.append(dict(max_cores=mc, max_workers=mw, executor_kwargs=given))
+        exprs.append("match step_ctor %s VNone %s %s %s %s with Ok d => \"Ok \" ++ show d | Err e => \"Err \" ++ e end" % (
+            pyval(Obj("queue", 1)), pyval(mc), pyval(mw), pyval(given), pyval("SP")))
+    try:
+        outs = core.eval_strings(["Base.Dec", "Base.PyLib", "Base.Show", "Gen.StepCtor"], exprs, "C07_ctor")
+    except core.CaseEvalError as ex:
+        res.violation("Gen/StepCtor.v could not be evaluated: %s" % str(ex)[-400:], {"kind": "tie", "theorem": "Gen/StepCtor.v"},
+                      found_input=False)
+        outs = want
+    res.cov["constructor_limit_cases"] = len(exprs)
+    if fails:
+        res.violation("the dispatcher is not started with the limits the executor was given",
+                      {"kind": "oracle", "case": {"why": fails[0]}, "count": len(fails)})
+    bad = [(i, w, o) for i, w, o in zip(inputs, want, outs) if w != o]
+    if bad and not fails:
+        res.violation("InteractiveStepExecutor.__init__ and its regenerated model disagree",
+                      {"kind": "tie", "case": bad[0][0], "implementation": bad[0][1], "model": bad[0][2]}, found_input=False)
+
+
 def real_slice(res, pid, kind, n_quick=2, n_thorough=10):
     """a few runs with real processes / real zmq / a real interpreter exit (harness/real.py)"""
     import sys
@@ -119,6 +176,8 @@ def run(res, pid):
         res.cov["cache_key_pair_cases"] = 200 if res.tier == "quick" else 2000
         if kf:
             res.violation("with a cache directory two different calls are taken for the same call", {"kind": "oracle", "case": kf[0]})
+    if pid == "C07":
+        ctor_limits(res)
     if pid == "C03":
         import traverse
         try:
